@@ -261,10 +261,12 @@ GetULen(bs, p) ==
         ELSE [ok |-> FALSE, why |-> "illegal fragment length octet", p |-> q]
 
 \* numeric value node from minimal octets plus small offset or big lower bound
-NumOfBytes(vb) == IF BigIsSmall(vb) THEN [n |-> BigToNat(vb)] ELSE [big |-> StripZ(vb)]
+\* same normal form as the exporter: below 2^30 a small number, otherwise minimal octets
+NumOfBytes(vb) == IF BigIsSmall(vb) /\ BigToNat(vb) < Lim THEN [n |-> BigToNat(vb)] ELSE [big |-> StripZ(vb)]
 NumAdd(vb, lb) == \* value = offset octets + lb
-   IF BigIsSmall(vb) /\ SmallNum(lb) /\ BigToNat(vb) < Lim THEN [n |-> BigToNat(vb) + lb.n]
-   ELSE LET r == BigAdd(vb, BN(lb)) IN IF BigIsSmall(r) THEN [n |-> BigToNat(r)] ELSE [big |-> r]
+   IF BigIsSmall(vb) /\ SmallNum(lb) /\ BigToNat(vb) < Lim /\ BigToNat(vb) + lb.n < Lim THEN [n |-> BigToNat(vb) + lb.n]
+   ELSE NumOfBytes(BigAdd(vb, BN(lb)))
+NumEq(a, b) == NumGE(a, b) /\ NumGE(b, a)
 TwosVal(vb) == \* small twos-complement values only (up to 4 octets)
    IF vb[1] < 128 THEN NumOfBytes(vb)
    ELSE [n |-> -(BigToNat(Tup([i \in 1..Len(vb) |-> 255 - vb[i]]))) - 1]
